@@ -397,12 +397,15 @@ struct Holder : HolderBase<V> {
 };
 // composed matchers never get copied: they are moved into a heap-allocated holder (not_matcher / ptr_deref have
 // greedy forwarding constructors that hijack copies of non-const objects)
-template <typename V, typename M>
-DM<V> wrap(M m, const Node& n) {
-  HolderBase<V>* raw = new Holder<V, M>(std::move(m));  // one shared_ptr instantiation per V, not per M (compile time)
+template <typename V>
+__attribute__((noinline)) DM<V> wrap_holder(HolderBase<V>* raw, const Node& n) {  // per V, not per M (compile time)
   std::shared_ptr<HolderBase<V>> h(raw);
   h->desc = pretty(n, Tr<V>::dom);
   return trompeloeil::make_matcher<V>(DPred<V>{}, DPrint<V>{}, std::move(h));
+}
+template <typename V, typename M>
+DM<V> wrap(M m, const Node& n) {
+  return wrap_holder<V>(new Holder<V, M>(std::move(m)), n);
 }
 
 template <typename V> DM<V> build(const Node& n);
@@ -593,20 +596,10 @@ template <> Exp make_exp<int>(Mock& mk, const Node& r, const char*& site) {
     return NAMED_ALLOW_CALL(mk, fi(trompeloeil::all_of<int>(k0, k1, k2))); }
   if (r.k == K_NONEOF && nk == 1 && !r.typed && !plain_kids) { auto k0 = build<int>(r.kids[0]); site = "int:none_of(D)";
     return NAMED_ALLOW_CALL(mk, fi(trompeloeil::none_of(k0))); }
-  if (r.k == K_ANYOF && nk == 2 && !r.typed && r.kids[0].k == K_VALUE && r.kids[0].direct && !(r.kids[1].k == K_VALUE && r.kids[1].direct)) { int v0 = r.kids[0].iv; auto k1 = build<int>(r.kids[1]); site = "int:any_of(value,D)";
-    return NAMED_ALLOW_CALL(mk, fi(trompeloeil::any_of(v0, k1))); }
   if (r.k == K_REL && !r.typed && r.rel == R_EQ) { site = "int:eq(v)";
     return NAMED_ALLOW_CALL(mk, fi(eq(r.iv))); }
-  if (r.k == K_REL && !r.typed && r.rel == R_LE) { site = "int:le(v)";
-    return NAMED_ALLOW_CALL(mk, fi(le(r.iv))); }
-  if (r.k == K_REL && !r.typed && r.rel == R_GT) { site = "int:gt(v)";
-    return NAMED_ALLOW_CALL(mk, fi(gt(r.iv))); }
-  if (r.k == K_REL && r.typed && r.rel == R_NE) { site = "int:ne<int>(v)";
-    return NAMED_ALLOW_CALL(mk, fi(ne<int>(r.iv))); }
   if (r.k == K_REL && r.typed && r.rel == R_LT) { site = "int:lt<int>(v)";
     return NAMED_ALLOW_CALL(mk, fi(lt<int>(r.iv))); }
-  if (r.k == K_REL && r.typed && r.rel == R_GE) { site = "int:ge<int>(v)";
-    return NAMED_ALLOW_CALL(mk, fi(ge<int>(r.iv))); }
   if (r.k == K_VALUE) { site = "int:value";
     return NAMED_ALLOW_CALL(mk, fi(r.iv)); }
   if (r.k == K_WILD) { site = "int:_";
@@ -620,12 +613,8 @@ template <> Exp make_exp<int*>(Mock& mk, const Node& r, const char*& site) {
   using namespace trompeloeil;
   if (r.k == K_DEREF) { auto k0 = build<int>(r.kids[0]); site = "int*:*D";
     return NAMED_ALLOW_CALL(mk, fp(*k0)); }
-  if (r.k == K_NOT && r.kids[0].k == K_DEREF) { auto k0 = build<int>(r.kids[0].kids[0]); site = "int*:!*D";
-    return NAMED_ALLOW_CALL(mk, fp(!*k0)); }
   if (r.k == K_NULLCMP && !r.typed && r.rel == R_NE) { site = "int*:ne(nullptr)";
     return NAMED_ALLOW_CALL(mk, fp(ne(nullptr))); }
-  if (r.k == K_ANYOF && r.kids.size() == 2 && !r.typed && r.kids[0].k == K_VALUE && r.kids[0].direct) { auto k1 = build<int*>(r.kids[1]); site = "int*:any_of(nullptr,D)";
-    return NAMED_ALLOW_CALL(mk, fp(trompeloeil::any_of(nullptr, k1))); }
   auto d = build<int*>(r); site = "int*:D";
   return NAMED_ALLOW_CALL(mk, fp(d));
 }
@@ -647,10 +636,6 @@ template <> Exp make_exp<std::string>(Mock& mk, const Node& r, const char*& site
     return NAMED_ALLOW_CALL(mk, fs(trompeloeil::re(PATS[r.pat], r.icase ? rc_::icase : rc_::ECMAScript, r.notbol ? rc_::match_not_bol : rc_::match_default))); }
   if (r.k == K_RE && r.typed) { site = "string:re<std::string>(s,opt,match)";
     return NAMED_ALLOW_CALL(mk, fs(trompeloeil::re<std::string>(PATS[r.pat], r.icase ? rc_::icase : rc_::ECMAScript, r.notbol ? rc_::match_not_bol : rc_::match_default))); }
-  if (r.k == K_NOT && r.kids[0].k == K_RE && !r.kids[0].typed) { const Node& q = r.kids[0]; site = "string:!re(s,opt,match)";
-    return NAMED_ALLOW_CALL(mk, fs(!trompeloeil::re(PATS[q.pat], q.icase ? rc_::icase : rc_::ECMAScript, q.notbol ? rc_::match_not_bol : rc_::match_default))); }
-  if (r.k == K_REL && !r.typed && r.rel == R_EQ && r.form == 0) { site = "string:eq(std::string)";
-    return NAMED_ALLOW_CALL(mk, fs(trompeloeil::eq(std::string(POOL[r.sv])))); }
   auto d = build<std::string>(r); site = "string:D";
   return NAMED_ALLOW_CALL(mk, fs(d));
 }
@@ -658,16 +643,12 @@ template <> Exp make_exp<char const*>(Mock& mk, const Node& r, const char*& site
   namespace rc_ = std::regex_constants;
   if (r.k == K_RE && !r.typed) { site = "cstr:re(s,opt,match)";
     return NAMED_ALLOW_CALL(mk, fc(trompeloeil::re(PATS[r.pat], r.icase ? rc_::icase : rc_::ECMAScript, r.notbol ? rc_::match_not_bol : rc_::match_default))); }
-  if (r.k == K_RE && r.typed) { site = "cstr:re<char const*>(s,opt,match)";
-    return NAMED_ALLOW_CALL(mk, fc(trompeloeil::re<char const*>(PATS[r.pat], r.icase ? rc_::icase : rc_::ECMAScript, r.notbol ? rc_::match_not_bol : rc_::match_default))); }
   auto d = build<char const*>(r); site = "cstr:D";
   return NAMED_ALLOW_CALL(mk, fc(d));
 }
 template <> Exp make_exp<S>(Mock& mk, const Node& r, const char*& site) {
   if (r.k == K_MEMBER && r.member == 0 && !(r.kids[0].k == K_VALUE && r.kids[0].direct)) { site = "S:MEMBER_IS(&S::a,D)";  // operand must be an rvalue: an lvalue operand does not compile (printer lambda takes `const C&` with C = D&)
     return NAMED_ALLOW_CALL(mk, fS(MEMBER_IS(&S::a, build<int>(r.kids[0])))); }
-  if (r.k == K_MEMBER && r.member == 1 && !(r.kids[0].k == K_VALUE && r.kids[0].direct)) { site = "S:MEMBER_IS(&S::s,D)";
-    return NAMED_ALLOW_CALL(mk, fS(MEMBER_IS(&S::s, build<std::string>(r.kids[0])))); }
   auto d = build<S>(r); site = "S:D";
   return NAMED_ALLOW_CALL(mk, fS(d));
 }
